@@ -146,7 +146,7 @@ def _proc_state(pid):
 
 
 def run(args, cwd, home, tz="UTC", trace=False, wall=WALL_LIMIT_S, env_extra=None,
-        stdout=None, strace=None, uid=None, binary_path=None, wrapper=None):
+        stdout=None, strace=None, uid=None, binary_path=None, wrapper=None, fake_epoch=None):
     """args: the argument vector after the program name.
     strace: None or list of extra strace options (output is collected in Result.strace).
     uid: run as this uid/gid through setpriv.
@@ -159,6 +159,10 @@ def run(args, cwd, home, tz="UTC", trace=False, wall=WALL_LIMIT_S, env_extra=Non
         _counter[0] += 1
         tracefile = os.path.join(home, "trace.%d.%d.jsonl" % (os.getpid(), _counter[0]))
         env["FSELECT_VERIF_TRACE"] = tracefile
+    if fake_epoch is not None:
+        from . import build
+        env["LD_PRELOAD"] = build.fakeclock()
+        env["FSV_FAKE_EPOCH"] = str(int(fake_epoch))
     if env_extra:
         env.update(env_extra)
     argv = [exe] + list(args)
